@@ -64,7 +64,8 @@ bool FilesystemHandlerPrivate::absolutePath(const QString &path, QString &absolu
     // Perhaps not the most efficient way of doing things, but one way to
     // determine if path is within the document root is to convert it to a
     // relative path and check to see if it begins with "../" (it shouldn't)
-    return documentRoot.exists(absolutePath) && !documentRoot.relativeFilePath(path).startsWith("../");
+    QString relativePath = documentRoot.relativeFilePath(path);
+    return documentRoot.exists(absolutePath) && relativePath != ".." && !relativePath.startsWith("../");
 }
 
 QByteArray FilesystemHandlerPrivate::mimeType(const QString &absolutePath)
